@@ -13,6 +13,7 @@ import time
 import traceback
 
 ROOT = os.path.dirname(os.path.dirname(os.path.abspath(__file__)))
+REPLAYS = os.environ.get("VERIF_REPLAY_DIR") or os.path.join(ROOT, "replays")
 sys.path.insert(0, ROOT)
 
 EXIT_OK, EXIT_VIOLATION, EXIT_ENGINE = 0, 1, 2
@@ -95,7 +96,7 @@ def main(argv=None):
     t0 = time.time()
     import glob
 
-    for f in glob.glob(os.path.join(ROOT, "replays", f"{prop}-*.json")):
+    for f in glob.glob(os.path.join(REPLAYS, f"{prop}-*.json")):
         os.remove(f)
     known = load_known(prop)
     active = []
@@ -199,10 +200,10 @@ def finish(prop, tier, seed, mod, results, extra_results, known_lines, t0, args)
     for w in witness_fail:
         engine.append({"obligation": w, "what": "reachability witness not produced (vacuous harness?)"})
 
-    os.makedirs(os.path.join(ROOT, "replays"), exist_ok=True)
+    os.makedirs(REPLAYS, exist_ok=True)
     vlines = []
     for i, v in enumerate(violations):
-        path = os.path.join(ROOT, "replays", f"{prop}-{i}.json")
+        path = os.path.join(REPLAYS, f"{prop}-{i}.json")
         with open(path, "w") as f:
             json.dump({"property": prop, **v}, f, indent=1)
         vlines.append(f"VIOLATION property={prop} replay={path}")
